@@ -697,7 +697,12 @@ pub fn behavior(w: &Walker, root_text: &str) -> Result<WalkBehavior, String> {
         Link::ReadFile => LinkBehavior::ReadFile,
         Link::ReadTarget => LinkBehavior::ReadTarget,
     };
-    Ok(WalkBehavior { depth, link })
+    // (field by field on top of the default, not a struct literal: a field added to `WalkBehavior`
+    // by a later version of the crate must not stop the simulator from building)
+    let mut behavior = WalkBehavior::default();
+    behavior.depth = depth;
+    behavior.link = link;
+    Ok(behavior)
 }
 
 /// The form in which the behaviour reaches `walk`/`walk_with_behavior`: client code rarely writes
